@@ -1,3 +1,5 @@
+//go:build verif_e1
+
 package ct
 
 // E1 harnesses for pkg/base/ct, integer part: 64-bit instances of the generic functions
@@ -15,6 +17,8 @@ func H_ct_less() {
 	a, b := verifU64(), verifU64()
 	sa, sb := int64(a), int64(b)
 	verifReach("ct_less")
+	verifObserve("LessU64", uint64(LessU64(a, b))) // compared by -selftest (interpreter vs native)
+	verifObserve("LessI64", uint64(LessI64(sa, sb)))
 	verifAssert("LessU64", (LessU64(a, b) == 1) == (a < b))
 	verifAssert("LessU64.range", LessU64(a, b) <= 1)
 	verifAssert("LessI64", (LessI64(sa, sb) == 1) == (sa < sb))
